@@ -18,7 +18,7 @@ ASSUMPTIONS = [
     "a listed composition must not exceed its recorded ratio, an unlisted one must not exceed 1",
 ]
 OUTSIDE = ["sequence lengths above the bound"]
-NMAX = {"quick": 9, "thorough": 14}
+NMAX = {"quick": 9, "thorough": 12}
 ITEM_TIMEOUT = {"quick": 400, "thorough": 2400}
 
 
